@@ -43,7 +43,9 @@ for (const [k, base, src] of [['mvNN', 'mv', 'mv!'], ['mvParen', 'mv', '(mv)'], 
 const cellOf = (t) => TARGETS[t].cell || (t === 'ok' ? 'op' : t);
 const CELLS = ['mv', 'op', 'arr0']; // distinct storage cells (o.p and o[kk] are the same one)
 const ARGS = { none: {}, arrOnly: { only: true }, ns: { name: () => 'arg' }, arrStr: { arr: "'arg'", name: () => 'arg' }, arrStr2: { arr: "'second-name'", name: () => 'second-name' }, arrDyn: { arr: 'dyn', name: (e) => e.bound.dyn, computed: true } };
-const MODFORMS = { none: { mods: [] }, suffix1: { suffix: ['trim'], mods: ['trim'] }, suffix2: { suffix: ['a', 'b'], mods: ['a', 'b'] }, arr: { arr: ['trim'], mods: ['trim'] }, arr2: { arr: ['lazy', 'a-b'], mods: ['lazy', 'a-b'] } };
+const MODFORMS = { none: { mods: [] }, suffix1: { suffix: ['trim'], mods: ['trim'] }, suffix2: { suffix: ['a', 'b'], mods: ['a', 'b'] }, arr: { arr: ['trim'], mods: ['trim'] }, arr2: { arr: ['lazy', 'a-b'], mods: ['lazy', 'a-b'] },
+  // names that are not identifiers although they hold no punctuation: digit first, a number, a reserved word, a dollar
+  arrOdd: { arr: ['2way', 'trim', 'default'], mods: ['2way', 'trim', 'default'] }, arrNum: { arr: ['0', '$x'], mods: ['0', '$x'] } };
 
 function modelAttr(m) {
   const a = ARGS[m.arg], mf = MODFORMS[m.mod];
